@@ -104,9 +104,14 @@ def footerPhase (file : Array UInt8) (st3 : FI) : Except Ret (Nat × Nat × FI) 
                  else { st5 with tempPos := 0, tempSize := 0 }
       .ok (footerCheck, bsz, st6)
 
+/-- `lzma_index_memused(coder->combined_index)`, 0 while there is none -/
+def memusedOpt : Option Impl.Index → Nat
+  | none => 0
+  | some c => Impl.memused c
+
 /-- SEQ_INDEX_INIT and SEQ_INDEX_DECODE: exactly Backward Size bytes are offered to the Index decoder -/
 def indexPhase (file : Array UInt8) (memlimit : Nat) (st6 : FI) (bsz : Nat) : Except Ret Impl.Index :=
-  let memused := match st6.combined with | none => 0 | some c => Impl.memused c
+  let memused := memusedOpt st6.combined
   if memused > memlimit then .error .progError
   else
     let idxBytes := if st6.tempSize ≠ 0 then bytesAt file (st6.tempStart + st6.tempPos) bsz
@@ -160,29 +165,41 @@ def combinePhase (st11 : FI) (this : Impl.Index) (bsz footerCheck headerCheck : 
       | _ => .error .progError
     | _ => .error .progError
 
-/-- One Stream per iteration, from SEQ_PADDING_SEEK / SEQ_PADDING_DECODE to SEQ_HEADER_COMPARE. -/
+inductive StepRes where
+  /-- `lzma_code` returns -/
+  | done (r : Ret × Option Impl.Index)
+  /-- back to SEQ_PADDING_SEEK (`needSeek`) or SEQ_PADDING_DECODE -/
+  | next (needSeek : Bool) (st : FI)
+
+/-- One Stream (or one window full of Stream Padding), from SEQ_PADDING_SEEK / SEQ_PADDING_DECODE to
+    SEQ_HEADER_COMPARE. -/
+def streamStep (file : Array UInt8) (memlimit : Nat) (firstCheck : Nat) (needSeek : Bool) (st : FI) : StepRes :=
+  match padPhase file needSeek st with
+  | .err r => .done (r, none)
+  | .again st1 => .next true st1
+  | .footer st3 =>
+    match footerPhase file st3 with
+    | .error r => .done (r, none)
+    | .ok (footerCheck, bsz, st6) =>
+      match indexPhase file memlimit st6 bsz with
+      | .error r => .done (r, none)
+      | .ok this =>
+        match headerPhase file firstCheck st6 bsz this with
+        | .error r => .done (r, none)
+        | .ok (headerCheck, st11) =>
+          match combinePhase st11 this bsz footerCheck headerCheck with
+          | .error r => .done (r, none)
+          | .ok comb =>
+            if st11.target = 0 then .done (.streamEnd, some comb)
+            else .next (st11.tempSize = 0) { st11 with streamPadding := 0, combined := some comb }
+
+/-- the loop of `file_info_decode` -/
 def streamLoop (file : Array UInt8) (memlimit : Nat) (firstCheck : Nat) : Nat → Bool → FI → Ret × Option Impl.Index
   | 0, _, _ => (.progError, none)
   | fuel + 1, needSeek, st =>
-    match padPhase file needSeek st with
-    | .err r => (r, none)
-    | .again st1 => streamLoop file memlimit firstCheck fuel true st1
-    | .footer st3 =>
-      match footerPhase file st3 with
-      | .error r => (r, none)
-      | .ok (footerCheck, bsz, st6) =>
-        match indexPhase file memlimit st6 bsz with
-        | .error r => (r, none)
-        | .ok this =>
-          match headerPhase file firstCheck st6 bsz this with
-          | .error r => (r, none)
-          | .ok (headerCheck, st11) =>
-            match combinePhase st11 this bsz footerCheck headerCheck with
-            | .error r => (r, none)
-            | .ok comb =>
-              if st11.target = 0 then (.streamEnd, some comb)
-              else streamLoop file memlimit firstCheck fuel (st11.tempSize = 0)
-                     { st11 with streamPadding := 0, combined := some comb }
+    match streamStep file memlimit firstCheck needSeek st with
+    | .done r => r
+    | .next needSeek' st' => streamLoop file memlimit firstCheck fuel needSeek' st'
 
 /-- `lzma_file_info_decoder` + `lzma_code` over a whole file (`file_size = file.size`); the result does not depend
     on how the application slices its reads or serves the seek requests. -/
